@@ -1,5 +1,42 @@
 import Driver.Util
+import KavaVerif.Model.BlockSafety
+/-!
+  C02 driver.
+
+  * `c02.block plan height ntx panicTag brokenRoutes panicText` — one block of a history on the real app:
+    the property predicate is evaluated on the observation: no begin/end-block panic
+    (PREDFAIL C02_block_processes <tag>) and no registered invariant route broken
+    (PREDFAIL C02_invariants_hold <routes>).
+  * `c02.debtsplit deps debt => class shares` — the real `cdp.Keeper.AuctionCollateral` on a deposit set:
+    (1) the Lean transcription `debtShares` must give the same per-depositor shares (MISMATCH);
+    (2) the predicate "the shares never exceed the debt" is evaluated on the observed shares
+        (PREDFAIL C02_cdp_debt_split over-allocated — finding F2).
+-/
 namespace Drv.C02
+open KV.Safe
+
+def handleBlock : Handler
+  | [plan, height, _ntx, tag, broken, _text] =>
+    if tag != "-" then predfail "C02_block_processes" s!"{tag} plan={plan} height={height}"
+    else if broken != "-" then predfail "C02_invariants_hold" s!"{broken} plan={plan} height={height}"
+    else "ok"
+  | _ => badInput "c02.block arity"
+
+def handleDebtSplit : Handler
+  | [deps, debt, _, cls, shares] =>
+    match ints? deps, int? debt, ints? shares with
+    | some ds, some debt, some ss =>
+      if cls != "ok" then predfail "C02_cdp_debt_split" s!"call-{cls}"
+      else
+        let model := debtShares ds debt
+        if model != ss then mismatch "debtShares" (showInts model) (showInts ss)
+        else if sumInts ss > debt then predfail "C02_cdp_debt_split" s!"over-allocated sum={sumInts ss} debt={debt} deposits={deps}"
+        else "ok"
+    | _, _, _ => badInput "ints"
+  | _ => badInput "c02.debtsplit arity"
+
 /-- handlers of property C02: (command name, handler) -/
-def handlers : List (String × Handler) := []
+def handlers : List (String × Handler) := [
+  ("c02.block", handleBlock), ("c02.debtsplit", handleDebtSplit)
+]
 end Drv.C02
